@@ -84,7 +84,7 @@ LEMMAS = [json_number_lemmas("C05")]
 VERIFIED_CALLEES = ()
 LEVEL = "other"
 TECHNIQUE = "contract-based deductive verification of the shared loading funnel (VCs from the real AST) + bounded relational contract across 9 channels, 4 parser modes and dotted/nested spelling"
-LEVEL_TEXT = "Verified: load_value returns '-' as given and returns a scalar loaded from text as the original string (typing is left to the type hint, identically for argv and documents); the argv path (ActionTypeHint.__call__: --k=v, --k.sub=v, --k.init_args.sub=v, --k+=v) and the document/object path (_apply_actions on the Namespace heap of C11, incl. nested members, whole-group values, subcommand sections, method-name keys) and the environment path (_load_env_vars, parse_env) all hand the given text to the same per-action type check; get_env_var is a pure function of the current env_prefix and dest; Namespace.__init__ / _parse_key make dotted and nested spellings address the same leaf. Bounded only: the relational agreement of 9 channels x 4 parser modes x dotted/nested spelling end to end (the loaders are external)."
+LEVEL_TEXT = "Verified: load_value returns '-' as given and returns a scalar loaded from text as the original string (typing is left to the type hint, identically for argv and documents); the argv path (ActionTypeHint.__call__: --k=v, --k.sub=v, --k.init_args.sub=v, --k+=v) and the document/object path (_apply_actions on the Namespace heap of C11, incl. nested members, whole-group values, subcommand sections, method-name keys) and the environment path (_load_env_vars, parse_env) all hand the given text to the same per-action type check; get_env_var is a pure function of the current env_prefix and dest; Namespace.__init__ / _parse_key make dotted and nested spellings address the same leaf. Also: every ContextVar helper restores its variable (what a rejected parse leaves behind would reach parse_string / parse_path only), parse_argv_item (which argv items are claimed for a typed parent action). Bounded additions: channels on a parser that has just rejected an input; 24 JSON documents under the four parser modes (three known findings in external loaders). Bounded only: the relational agreement of 9 channels x 4 parser modes x dotted/nested spelling end to end (the loaders are external)."
 LEVEL_NOTE = "under construction"
 EXPLANATION = "under construction"
 ASSUMPTIONS = []
